@@ -247,4 +247,29 @@ theorem convertCoef2d_excluded (mc : Option Nat) (c : List (List Rat)) (ox sx oz
     · rw [polyTransformAt_zero_of_lt oz sz j l (by omega)]; ring
   · rw [polyTransformAt_zero_of_lt ox sx i k (by omega)]; ring
 
+/-! ### when the loop changes nothing -/
+
+theorem keptCols_some_eq_none_iff (a b m : Nat) :
+    keptCols a b (some m) = keptCols a b none ↔ a = 0 ∨ b = 0 ∨ (a ≤ m ∧ b ≤ m) := by
+  rw [keptCols_eq, keptCols_eq, List.map_inj_left, ← allowed_all_iff]
+  constructor
+  · intro h i j hi hj
+    have := h (colIndex a b i j) (List.mem_range.2 (colIndex_lt a b i j hi hj))
+    rw [keptCol_eq_allowed, keptCol_eq_allowed, colIndex_div a b i j hj, colIndex_mod a b i j hj] at this
+    exact this
+  · intro h idx hidx
+    rw [List.mem_range] at hidx
+    rw [keptCol_eq_allowed, keptCol_eq_allowed]
+    exact h _ _ (div_le_of_lt_mul a b idx hidx) (by have := Nat.mod_lt idx (show b + 1 > 0 by omega); omega)
+
+theorem maskCoef_excluded (mc : Option Nat) (c : List (List Rat)) (i j : Nat) (hi : i < c.length)
+    (hj : j < (c.getD i []).length) (h : allowed mc i j = false) :
+    ((maskCoef mc c).getD i []).getD j 0 = 0 := by
+  rw [maskCoef_entry mc c i j hi hj, h]; rfl
+
+theorem maskCoef_allowed (mc : Option Nat) (c : List (List Rat)) (i j : Nat) (hi : i < c.length)
+    (hj : j < (c.getD i []).length) (h : allowed mc i j = true) :
+    ((maskCoef mc c).getD i []).getD j 0 = (c.getD i []).getD j 0 := by
+  rw [maskCoef_entry mc c i j hi hj, h]; rfl
+
 end PbVerif.Lemmas
